@@ -17,7 +17,7 @@ RULE = ("stratified + seeded random (configuration, sample) pairs; non-trivial =
         "(so that products do not collapse to powers) or finite N with the null mean moving; distinct = hash of "
         "(kind, configuration, sample)")
 REQUIRED = [f"ref_compared:{nn.label({'test': a, 'estim': b, 'bet': c})}" for a, b, c in nn.COMBOS] + \
-           ["equiv_compared", "inverse_checked", "entries_eq", "entries_boundary", "stratum:nondyadic_boundary_neighbourhood", "stratum:early_wins_then_zeros_to_census"]
+           ["equiv_compared", "inverse_checked", "entries_eq", "entries_boundary", "stratum:nondyadic_boundary_neighbourhood", "stratum:early_wins_then_zeros_to_census", "stratum:long_sample"]
 ASSUMPTIONS = ["eta_j and lambda_j are taken from the real estimator/bet (their ranges are C13's business)",
                "boundary-index conventions of DESIGN.md C12: at the index where the total first exceeds N t either the "
                "product value or 0 is accepted; where mu_j is within the code's tolerances of 0 or u either the product "
@@ -36,6 +36,13 @@ def run_shard(spec, rec):
     rng = random.Random(f"c12-{spec['seed']}-{spec['shard']}")
     for i in range(spec["n"]):
         r = i % 12
+        if r < 9 and i % 600 == r:
+            # a long sample (600-2500 draws, bounds up to 10): products that leave the floating-point range
+            cfg, desc = nn.gen_long(rng, nn.COMBOS[r])
+            if nn.in_domain(cfg, nn.expand_long(desc, cfg)):
+                rec.count("stratum:long_sample")
+                run_case({"kind": "ref", "cfg": cfg, "x_long": desc, "stratum": "long_sample"}, rec)
+            continue
         if r < 9:
             combo = nn.COMBOS[r]
             cfg = nn.gen_cfg(rng, combo=combo, n_max=rng.choice((6, 12, 12, 30)))
@@ -80,7 +87,8 @@ def run_case(case, rec):
     kind = case["kind"]
     if kind == "inverse":
         return run_inverse(case, rec)
-    cfg, x = case["cfg"], [float(v) for v in case["x"]]
+    cfg = case["cfg"]
+    x = [float(v) for v in (case["x"] if "x" in case else nn.expand_long(case["x_long"], cfg))]
     N = nn.cfgN(cfg)
     rec.case(case, nontrivial=(len(set(x)) > 1))
     xa = nn.to_array(x, cfg)
